@@ -173,7 +173,7 @@ impl Prop for C01 {
                     gen: enum_ranges,
                 },
             },
-            Stage { name: "random", kind: StageKind::Random { strategy: strat, cases: tier.pick(150_000, 3_000_000) } },
+            Stage { name: "random", kind: StageKind::Random { strategy: strat, cases: tier.pick(600_000, 4_000_000) } },
         ]
     }
     fn check(case: &SeqCase, obs: &mut Obs) -> Verdict {
